@@ -53,7 +53,9 @@ type config struct {
 	Langs   []string
 	Passes  string // file name under passes/ ("" = none)
 	Veneers bool
-	Outputs string // "" = everything
+	// VeneersDir: directory of rule files ("" = veneers)
+	VeneersDir string
+	Outputs    string // "" = everything
 }
 
 func (c config) yaml(dir string) string {
@@ -73,7 +75,11 @@ func (c config) yaml(dir string) string {
 			fmt.Fprintf(&b, "  schemas: ['%s/passes/%s']\n", dir, c.Passes)
 		}
 		if c.Veneers {
-			fmt.Fprintf(&b, "  builders: ['%s/veneers']\n", dir)
+			vd := c.VeneersDir
+			if vd == "" {
+				vd = "veneers"
+			}
+			fmt.Fprintf(&b, "  builders: ['%s/%s']\n", dir, vd)
 		}
 	}
 	b.WriteString("output:\n  directory: './out/%l'\n  types: true\n  builders: true\n  converters: true\n  api_reference: true\n  languages:\n")
@@ -414,12 +420,48 @@ func main() {
 	}
 
 	// ---- (b) input order, (c) unrelated input ------------------------------------------------
-	{
-		ins := []input{{"jsonschema", "a.json", "alpha", ""}, {"jsonschema", "b.json", "beta", ""}, {"jsonschema", "g.json", "gamma", ""}}
+	type bcVariant struct {
+		name, passes string
+		bases        [][]int // part (c): input sets to which the remaining package is added
+		unrelated    int     // part (c): the package added
+		needs        map[int]int
+		ins          []input
+	}
+	abg := []input{{"jsonschema", "a.json", "alpha", ""}, {"jsonschema", "b.json", "beta", ""}, {"jsonschema", "g.json", "gamma", ""}}
+	variants := []bcVariant{{name: "plain", bases: [][]int{{0}, {1}, {0, 1}}, unrelated: 2, ins: abg}}
+	// package i refers to Part of package j; the third package (which has its own Part) is unrelated
+	pkgNames := []string{"alpha", "beta", "gamma"}
+	for i := range pkgNames {
+		for j := range pkgNames {
+			if i == j {
+				continue
+			}
+			u := 3 - i - j
+			variants = append(variants, bcVariant{name: "xref " + pkgNames[i] + "->" + pkgNames[j], passes: "xref-" + pkgNames[i] + "-" + pkgNames[j] + ".yaml",
+				bases: [][]int{{j, i}, {i, j}}, unrelated: u, needs: map[int]int{i: j}, ins: abg})
+		}
+	}
+	// the referring package has no Part of its own (so nothing forces another name on the
+	// copy it gets) and sorts before / after the two others; the unrelated package has a Part
+	for _, rname := range []string{"aardvark", "zeta"} {
+		for _, su := range [][2]int{{0, 2}, {2, 0}} {
+			sIn, uIn := abg[su[0]], abg[su[1]]
+			variants = append(variants, bcVariant{name: "xref " + rname + "->" + sIn.Pkg + " (unrelated " + uIn.Pkg + ")", passes: "xref-" + rname + "-" + sIn.Pkg + ".yaml",
+				bases: [][]int{{0, 2}, {2, 0}}, unrelated: 1, needs: map[int]int{2: 0},
+				ins: []input{sIn, uIn, {"jsonschema", "z.json", rname, ""}}})
+		}
+	}
+	for _, variant := range variants {
+		vtag := ""
+		if variant.name != "plain" {
+			vtag = " [" + variant.name + "]"
+		}
+		ins := variant.ins
+		pkgNames := []string{ins[0].Pkg, ins[1].Pkg, ins[2].Pkg}
 		perms := [][]int{{0, 1, 2}, {0, 2, 1}, {1, 0, 2}, {1, 2, 0}, {2, 0, 1}, {2, 1, 0}}
 		var first outcome
 		for i, pm := range perms {
-			c := config{Langs: allLangs}
+			c := config{Langs: allLangs, Passes: variant.passes}
 			for _, k := range pm {
 				c.Inputs = append(c.Inputs, ins[k])
 			}
@@ -431,7 +473,24 @@ func main() {
 					break
 				}
 				if o.status != "ok" {
-					vx.Fatalf("part b: base configuration fails: %s", o.err)
+					// the three inputs are independent packages (xref: beta needs alpha): if the
+					// inputs that can stand alone do, the failure comes from putting them together
+					alone := true
+					for k := range ins {
+						if _, dependent := variant.needs[k]; dependent {
+							continue
+						}
+						ca := config{Langs: allLangs, Inputs: []input{ins[k]}}
+						if oa := run(dir, ca, false); oa.status != "ok" {
+							alone = false
+						}
+					}
+					if !alone {
+						vx.Fatalf("part b: base configuration fails: %s", o.err)
+					}
+					r.Fail(vx.Failure{Kind: "input set: run fails although every input alone succeeds" + vtag, Witness: fmt.Sprint(pm) + vtag, Size: i,
+						What: fmt.Sprintf("inputs %v in order %v%s: %s (%s) although each input generates alone", pkgNames, pm, vtag, o.status, o.err), Detail: map[string]any{"part": "b", "perm": pm, "variant": variant.name}})
+					break
 				}
 				continue
 			}
@@ -439,18 +498,18 @@ func main() {
 				continue
 			}
 			if o.status != first.status {
-				r.Fail(vx.Failure{Kind: "input order: status changes", Witness: fmt.Sprint(pm), Size: i, What: fmt.Sprintf("inputs in order %v: %s (%s)", pm, o.status, o.err), Detail: map[string]any{"part": "b", "perm": pm}})
+				r.Fail(vx.Failure{Kind: "input order: status changes" + vtag, Witness: fmt.Sprint(pm) + vtag, Size: i, What: fmt.Sprintf("inputs in order %v%s: %s (%s)", pm, vtag, o.status, o.err), Detail: map[string]any{"part": "b", "perm": pm, "variant": variant.name}})
 				continue
 			}
 			if d := diffFiles(first.files, o.files); len(d) > 0 {
-				r.Fail(vx.Failure{Kind: "input order: generated files change (" + fileClass(d) + ")", Witness: fmt.Sprint(pm), Size: i,
-					What: fmt.Sprintf("reordering inputs of different packages to %v changes files: %v", pm, short(d)), Detail: map[string]any{"part": "b", "perm": pm}})
+				r.Fail(vx.Failure{Kind: "input order: generated files change (" + fileClass(d) + ")" + vtag, Witness: fmt.Sprint(pm) + vtag, Size: i,
+					What: fmt.Sprintf("reordering inputs of different packages to %v%s changes files: %v", pm, vtag, short(d)), Detail: map[string]any{"part": "b", "perm": pm, "variant": variant.name}})
 			}
 			samples.Add(map[string]any{"part": "b", "input_order": pm, "files": len(o.files)})
 		}
 		// (c) each subset S of {alpha,beta} plus the unrelated gamma: files of the other packages unchanged
-		for _, base := range [][]int{{0}, {1}, {0, 1}} {
-			c := config{Langs: allLangs}
+		for _, base := range variant.bases {
+			c := config{Langs: allLangs, Passes: variant.passes}
 			for _, k := range base {
 				c.Inputs = append(c.Inputs, ins[k])
 			}
@@ -469,7 +528,7 @@ func main() {
 				}
 				if without.status != "ok" || with.status != "ok" {
 					if without.status == "ok" {
-						r.Fail(vx.Failure{Kind: "unrelated input: run fails", Witness: fmt.Sprint(base), What: "adding the unrelated package gamma makes the run fail: " + with.err, Detail: map[string]any{"part": "c", "base": base}})
+						r.Fail(vx.Failure{Kind: "unrelated input: run fails" + vtag, Witness: fmt.Sprint(base) + vtag, What: "adding the unrelated package " + pkgNames[variant.unrelated] + " makes the run fail: " + with.err, Detail: map[string]any{"part": "c", "base": base, "variant": variant.name}})
 					}
 					continue
 				}
@@ -493,8 +552,8 @@ func main() {
 				}
 				sort.Strings(d)
 				if len(d) > 0 {
-					r.Fail(vx.Failure{Kind: "unrelated input: files of other packages change (" + fileClass(d) + ")", Witness: fmt.Sprint(base) + " gamma " + pos, Size: len(base),
-						What: fmt.Sprintf("adding unrelated package gamma ("+pos+") to %v changes files of the other packages: %v", base, short(d)), Detail: map[string]any{"part": "c", "base": base}})
+					r.Fail(vx.Failure{Kind: "unrelated input: files of other packages change (" + fileClass(d) + ")" + vtag, Witness: fmt.Sprint(base) + " +" + pkgNames[variant.unrelated] + " " + pos + vtag, Size: len(base),
+						What: fmt.Sprintf("adding unrelated package "+pkgNames[variant.unrelated]+" ("+pos+") to %v%s changes files of the other packages: %v", base, vtag, short(d)), Detail: map[string]any{"part": "c", "base": base, "variant": variant.name}})
 				}
 				samples.Add(map[string]any{"part": "c", "base_packages": base, "unrelated_input_position": pos, "package_files_compared": len(without.files)})
 			}
@@ -541,6 +600,7 @@ func seedConfigs(thorough bool) []seedCfg {
 	s := []seedCfg{
 		{"two-packages", config{Inputs: []input{{"jsonschema", "a.json", "alpha", ""}, {"jsonschema", "b.json", "beta", ""}}}},
 		{"passes+veneers", config{Inputs: []input{{"jsonschema", "a.json", "alpha", ""}, {"jsonschema", "b.json", "beta", ""}}, Passes: "common.yaml", Veneers: true}},
+		{"more-veneers", config{Inputs: []input{{"jsonschema", "a.json", "alpha", ""}, {"jsonschema", "b.json", "beta", ""}}, Veneers: true, VeneersDir: "veneers2"}},
 		{"openapi", config{Inputs: []input{{"openapi", "api.json", "api", ""}}}},
 		{"allof", config{GoPlain: true, Inputs: []input{{"jsonschema", "i.json", "inter", ""}}}},
 	}
